@@ -7,10 +7,13 @@ patch="$1"; demo="$2"; shift 2
 dir=$(mktemp -d /var/tmp/seedv.XXXXXX); rmdir "$dir"
 git -C /repo worktree add -q --detach "$dir" HEAD || exit 3
 trap 'git -C /repo worktree remove --force "$dir" >/dev/null 2>&1; rm -rf "$dir"' EXIT
-cp "$demo" "$dir/_demo.py"
-( cd "$dir" && timeout 900 /venv/bin/python _demo.py >/dev/null 2>&1 ); clean=$?
+# demos written by sub-agents often hard-code their own worktree on sys.path: point them at the scratch tree instead
+srcroot=$(dirname "$(dirname "$demo")")
+sed "s#$srcroot#$dir#g" "$demo" > "$dir/_demo.py"
+mkdir -p "$dir/SEEDED" && cp "$dir/_demo.py" "$dir/SEEDED/_demo.py"
+( cd "$dir" && FLOWJAX_ROOT="$dir" PYTHONPATH="$dir" timeout 900 /venv/bin/python SEEDED/_demo.py >/dev/null 2>&1 ); clean=$?
 ( cd "$dir" && git apply "$patch" ) || { echo "RESULT patch-does-not-apply"; exit 3; }
-( cd "$dir" && timeout 900 /venv/bin/python _demo.py >/dev/null 2>&1 ); broken=$?
+( cd "$dir" && FLOWJAX_ROOT="$dir" PYTHONPATH="$dir" timeout 900 /venv/bin/python SEEDED/_demo.py >/dev/null 2>&1 ); broken=$?
 targets="$@"; [ -z "$targets" ] && targets="tests"
 ( cd "$dir" && /venv/bin/python -m pytest -q -p no:cacheprovider --timeout=900 --continue-on-collection-errors --junitxml="$dir/_j.xml" $targets >/dev/null 2>&1 )
 /venv/bin/python - "$dir/_j.xml" "$targets" <<'PY'
